@@ -220,6 +220,9 @@ func (s *DateYearShard) getNumYear(key interface{}) (int, error) {
 		tm := time.Unix(val, 0)
 		return tm.Year(), nil
 	case string:
+		if len(val) < len("2006") {
+			return -1, NewInvalidDateFormatKeyError(key)
+		}
 		if v, err := strconv.Atoi(val[:4]); err != nil {
 			return -1, NewInvalidDateFormatKeyError(key)
 		} else {
